@@ -268,6 +268,55 @@ def rule_keys(ctx: Ctx):
     rep.floor("C02.keys", "convention registrations", n, 9)
 
 
+def rule_support(ctx: Ctx):
+    """C02.keys (support functions): executor keys are per (group, spec list); InstanceState delegates
+    its groupers; spec equality distinguishes groups (so one name in two groups runs in both)."""
+    rep = ctx.rep
+    bk = ctx.fn("CallbackGroup.build_key")
+    for p in ctx.paths(bk, inline=None, exc_edges="none"):
+        v = expand(p.value, p.events)
+        parts = {show(x.value) for x in v.values if isinstance(x, ast.FormattedValue)} if isinstance(v, ast.JoinedStr) else set()
+        rep.check(parts == {"self.name", f"id({bk.params[1]})"}, "C02.keys", bk.loc(),
+                  "an executor key identifies the group and the spec list of one state/transition (no two owners share an executor)",
+                  bk.key, f"return {show(v)}")
+    gi = ctx.fn("SpecListGrouper.__init__")
+    got = {show(t): show(n.value) for n in own_nodes(gi.node) if isinstance(n, ast.Assign) for t in n.targets}
+    rep.check(got.get("self.key") == f"{gi.params[2]}.build_key({gi.params[1]})", "C02.keys", gi.loc(), "a grouper's key is built from its group and its list",
+              gi.key, f"self.key = {got.get('self.key')}")
+    gr = ctx.fn("CallbackSpecList.grouper")
+    for p in ctx.paths(gr, inline=None, exc_edges="none"):
+        if p.kind == "return":
+            rep.check(xshow(p.value, p.events) == f"self._groupers[{gr.params[1]}]", "C02.keys", gr.loc(), "one grouper per group of a spec list", gr.key,
+                      f"return {xshow(p.value, p.events)}")
+        for e in p.of("store"):
+            if e.x.get("subscript"):
+                rep.check(xshow(e.x["value"], p.events) == f"SpecListGrouper(self, {gr.params[1]})", "C02.keys", e.loc(),
+                          "the grouper is created for this list and this group", gr.key, norm_stmt(e.node))
+    gt = ctx.fn("CallbacksRegistry.__getitem__")
+    for p in ctx.paths(gt, inline=None, exc_edges="none"):
+        rep.check(p.kind == "return" and show(p.value) == f"self._registry[{gt.params[1]}]", "C02.keys", gt.loc(), "registry[key] is the executor of that key", gt.key,
+                  f"return {show(p.value)}")
+    ei = ctx.fn("CallbacksExecutor.__iter__")
+    for p in ctx.paths(ei, inline=None, exc_edges="none"):
+        rep.check(p.kind == "return" and xshow(p.value, p.events) == "iter(self.items)", "C02.keys", ei.loc(), "iterating an executor yields every wrapper it holds",
+                  ei.key, f"return {xshow(p.value, p.events)}")
+    eq = ctx.fn("CallbackSpec.__eq__")
+    src = " ".join(norm_stmt(n) for n in own_nodes(eq.node) if isinstance(n, ast.Return))
+    rep.check("self.func == other.func" in src and "self.group == other.group" in src and " or " not in src, "C02.once", eq.loc(),
+              "two specs are the same only if callable and group agree (a name used in two groups runs in both)", eq.key, src)
+    inst = ctx.p.cls("InstanceState")
+    want = {"name": "self._state().name", "value": "self._state().value", "transitions": "self._state().transitions", "enter": "self._state().enter",
+            "exit": "self._state().exit", "initial": "self._state()._initial", "final": "self._state()._final"}
+    for nm, w in want.items():
+        f = inst.method(nm)
+        if f is None:
+            raise AnalysisError(f"anchor lost: InstanceState.{nm}")
+        rep.note_fn(f)
+        for p in ctx.paths(f, inline=None, exc_edges="none"):
+            rep.check(p.kind == "return" and xshow(p.value, p.events) == w, "C02.keys", f.loc(), f"the per-instance view of a state delegates `{nm}` to its definition",
+                      f.key, f"return {xshow(p.value, p.events)}")
+
+
 def _const_prefix(t: ast.AST):
     if isinstance(t, ast.Constant) and isinstance(t.value, str):
         return t.value
@@ -488,4 +537,4 @@ def rule_once(ctx: Ctx, rule: str = "C02.once"):
     rep.floor(rule, "wrapper insertions", n, 1)
 
 
-RULES = [rule_order, rule_view, rule_keys, rule_scope, rule_initial, rule_once]
+RULES = [rule_order, rule_view, rule_keys, rule_support, rule_scope, rule_initial, rule_once]
